@@ -22,8 +22,8 @@ REQUIRED_REACH = ["recv_ok", "recv_eof_error", "recv_fatal_error", "recv_timeout
 SHARD_TIMEOUT = {"quick": 200, "thorough": 2400}
 
 R_ALPHA = [("d", 1), ("d", 2), ("rest",), ("e", errno.EINTR), ("e", errno.EAGAIN), ("e", errno.EINPROGRESS),
-           ("e", errno.ECONNRESET), ("e", errno.EPIPE), ("t",), ("eof",)]
-W_ALPHA = [("a", 1), ("a", 2), ("all",), ("e", errno.EINTR), ("e", errno.EAGAIN), ("e", errno.ECONNRESET), ("e", errno.EPIPE), ("t",)]
+           ("e", errno.ECONNRESET), ("e", errno.EPIPE), ("x", "Socket is closed"), ("t",), ("eof",)]
+W_ALPHA = [("a", 1), ("a", 2), ("all",), ("e", errno.EINTR), ("e", errno.EAGAIN), ("e", errno.ECONNRESET), ("e", errno.EPIPE), ("x", "Socket is closed"), ("t",)]
 RETRY = {errno.EINTR, errno.EAGAIN, errno.EWOULDBLOCK, errno.EINPROGRESS}
 MODES = [(False, False), (True, False), (True, True)]     # (USE_MSG_WAITALL, fake honours it)
 
@@ -92,6 +92,11 @@ class TraceReadSock:
                 elif self.terminal is None:
                     self.terminal, self.pos_at_terminal = ev, self.pos
                 raise OSError(ev[1], "scripted errno")
+            if ev[0] == "x":
+                # a fatal error that carries no errno (what Python-level socket wrappers, tunnels and closed ssl objects raise)
+                if self.terminal is None:
+                    self.terminal, self.pos_at_terminal = ev, self.pos
+                raise OSError(ev[1])
             if ev[0] == "t":
                 if self.terminal is None:
                     self.terminal, self.pos_at_terminal = ev, self.pos
@@ -101,6 +106,12 @@ class TraceReadSock:
             if self.terminal is None:
                 self.terminal, self.pos_at_terminal = ("eof",), self.pos
             return b""
+
+    def recv_into(self, buffer, nbytes=0, flags=0):
+        mv = memoryview(buffer)
+        chunk = self.recv(nbytes or len(mv), flags)
+        mv[:len(chunk)] = chunk
+        return len(chunk)
 
 
 class TraceWriteSock:
@@ -131,6 +142,10 @@ class TraceWriteSock:
             elif self.terminal is None:
                 self.terminal = ev
             raise OSError(ev[1], "scripted errno")
+        if ev[0] == "x":
+            if self.terminal is None:
+                self.terminal = ev
+            raise OSError(ev[1])
         if ev[0] == "t":
             if self.terminal is None:
                 self.terminal = ev
@@ -188,7 +203,7 @@ def check_recv(env, n, script, waitall, honour, timeout, rec, payload):
             if pd is not None and bytes(pd) != stream[:fs.pos]:
                 rec.violation("recv-partialdata-wrong", "partialData present but != bytes received so far; script=%s" % (script,), payload)
                 return
-            rec.count("recv_fatal_error" if kind == "e" else "recv_timeout_error")
+            rec.count("recv_fatal_error" if kind in ("e", "x") else "recv_timeout_error")
         return
     # no terminal event before completion: must return exactly the next n bytes and consume exactly n
     if exc is not None:
